@@ -42,6 +42,14 @@ pub fn universe() -> Vec<(String, Option<J>)> {
         J::int(-9007199254740991),
         J::float(9007199254740991.0),
         J::int(9007199254740990),
+        // neighbours in the float lattice and around 2^52 (where .5 is the last fraction)
+        J::float(0.3),
+        J::float(0.30000000000000004),
+        J::float(1.0000000000000002),
+        J::float(5e-324),
+        J::float(4503599627370496.5),
+        J::int(4503599627370496),
+        J::int(4503599627370497),
         // integers beyond 2^53: judged against each other (exact), zone U2 against floats
         J::int(9007199254740992),
         J::int(9007199254740993),
@@ -104,6 +112,29 @@ pub fn universe() -> Vec<(String, Option<J>)> {
         u.push((v.to_text(), Some(v)));
     }
     u
+}
+
+pub fn string_family() -> Vec<String> {
+    let mut v: Vec<String> = vec![];
+    for l in [1usize, 2, 7, 8, 9, 15, 16, 17, 31, 32, 33, 63, 64, 65] {
+        v.push("a".repeat(l));
+        v.push(format!("{}b", "a".repeat(l - 1)));
+    }
+    for l in [7usize, 15, 16, 31] {
+        v.push(format!("{}\u{e9}", "a".repeat(l)));
+        v.push(format!("{}\u{e9}a", "a".repeat(l)));
+        v.push(format!("{}\u{ffff}", "a".repeat(l)));
+        v.push(format!("{}\u{10000}", "a".repeat(l)));
+    }
+    for s in [
+        "", "A", "B", "ab", "a ", " a", "a\u{0}", "\u{0}", "a\u{0}b", "\u{e9}", "e\u{301}", "\u{c9}", "\u{e9}\u{e9}", "10", "9", "1", "1.0", "01", "true", "null", "\u{ffff}", "\u{10000}",
+        "\u{1f600}", "\u{d7ff}", "\u{e000}", "\u{df}", "ss", "\u{7f}", "\u{80}", "~", "\u{7ff}", "\u{800}", "a\tb", "a'b", "a\"b", "a\\b", "\u{feff}", "\u{feff}a",
+    ] {
+        v.push(s.to_string());
+    }
+    v.sort();
+    v.dedup();
+    v
 }
 
 fn deep(n: usize, leaf: J) -> J {
@@ -392,6 +423,63 @@ pub fn run(ctx: &Ctx) -> Result<Evidence, String> {
                 }
             }
         }
+    }
+    // string family: all ordered pairs of strings chosen for length classes, long common
+    // prefixes, multi-byte characters at 8/16/32-byte boundaries, code points whose UTF-16 order
+    // differs from their scalar-value order, look-alikes (case, composed / decomposed, digits)
+    let mut acc = acc;
+    {
+        let strs = string_family();
+        let m = strs.len();
+        let sdocs: Vec<Doc> = (0..m * m).map(|i| Doc::new(&carrier(&Some(J::str(&strs[i / m])), &Some(J::str(&strs[i % m]))))).collect();
+        let lit_ok = |s: &str| s.chars().all(|c| c >= ' ' && c != '\'' && c != '"' && c != '\\');
+        let forms3 = [(Form::CurMember, Form::CurMember), (Form::CurMember, Form::Lit), (Form::Lit, Form::RootMember)];
+        let sacc = par_run(ctx, m * m * 3, |i, acc: &mut Acc| {
+            let (fa, fb) = forms3[i % 3];
+            let (a_i, b_i) = ((i / 3) / m, (i / 3) % m);
+            let (sa, sb) = (&strs[a_i], &strs[b_i]);
+            if (fa == Form::Lit && !lit_ok(sa)) || (fb == Form::Lit && !lit_ok(sb)) {
+                return;
+            }
+            let (va, vb) = (Some(J::str(sa)), Some(J::str(sb)));
+            let doc = &sdocs[a_i * m + b_i];
+            let mut seen = [false; 6];
+            for (k, op) in CmpOp::ALL.iter().enumerate() {
+                let (lhs, rhs) = match (operand('l', fa, &va, 0), operand('r', fb, &vb, 0)) {
+                    (Some(l), Some(r)) => (l, r),
+                    _ => return,
+                };
+                let q = Query::root(vec![Segment::child(Selector::Name("c".into())), Segment::child(Selector::Filter(Or::single(Basic::Cmp { lhs, op: *op, rhs })))]);
+                let text = render(&q, &mut Spelling::canonical());
+                let expected = compare(*op, va.as_ref(), vb.as_ref());
+                acc.evaluations += 1;
+                match libapi::query_with_path(&text, &doc.value) {
+                    LibOutcome::Ok(ns) => {
+                        seen[k] = !ns.is_empty();
+                        if ns.is_empty() == expected {
+                            ctx.violate(
+                                &format!("string comparison {:?} {} {:?} ({:?} {:?}) evaluated to {} but RFC 9535 says {}", sa, op.text(), sb, fa, fb, !ns.is_empty(), expected),
+                                json!({"kind":"query","query": text, "document": serde_json::from_str::<serde_json::Value>(&doc.text()).unwrap_or_default(), "expected_truth": expected}),
+                            );
+                        } else {
+                            acc.count("held", 1);
+                            acc.count("string_family_held", 1);
+                        }
+                    }
+                    o => ctx.violate(&format!("comparison query failed: {}", o.brief()), json!({"kind":"query","query": text, "document": serde_json::from_str::<serde_json::Value>(&doc.text()).unwrap_or_default()})),
+                }
+            }
+            // law on the observed outcomes: exactly one of <, ==, > for two strings
+            if [seen[0], seen[2], seen[4]].iter().filter(|x| **x).count() != 1 || seen[1] == seen[0] || seen[3] != (seen[2] || seen[0]) || seen[5] != (seen[4] || seen[0]) {
+                ctx.violate(
+                    &format!("law violated on observed outcomes for the strings {:?} and {:?} ({:?} {:?}): == != < <= > >= gave {:?}", sa, sb, fa, fb, seen),
+                    json!({"kind":"law","lhs": sa, "rhs": sb, "forms": format!("{:?} {:?}", fa, fb), "observed": format!("{:?}", seen)}),
+                );
+            }
+            acc.nontrivial(format!("str:{}:{}:{}", a_i, b_i, i % 3).as_bytes());
+        });
+        acc = Acc::merge(vec![acc, sacc]);
+        acc.count("string_family_size", m as u64);
     }
     let mut ev = Evidence::new("cases = (lhs value, rhs value, operator, operand form pair): all ordered pairs of a 41-element universe (Nothing + every JSON type incl. int/float twins, -0.0, 1e-17, 2^53-1, empty/nested containers, unicode strings) x 6 operators x operand forms (@.m, $.m, nested singular path, array element by index, literal in several number spellings, value(@.m)). Truth observed at the boundary as 'carrier element kept' for L op R and for !(L op R). Non-trivial = distinct (type(lhs), type(rhs), op, form pair) cells.");
     ev.set("exhaustive", json!(true));
